@@ -100,3 +100,40 @@ def argorder(ctx):
                         if role in wants and v != wants[role]:
                             ctx.violate(q, '_ecdsa.sign argument for %s is %s, expected local %s' % (role, show(v), wants[role][1]), call)
     ctx.floor(found, 2, 'direct _ecdsa.sign/_ecdsa.verify calls')
+
+
+def verify_args(ctx):
+    """Signature.verify(txid, public_key): when the caller supplies a digest / a public key, the operands handed to the ECDSA
+    verifier derive from THOSE arguments (through the txid / public_key setters), not from values remembered on the object."""
+    q = 'keys:Signature.verify'
+    fn = ctx.repo.func(q)
+
+    def decide(t):
+        if t == ('global', 'USE_FASTECDSA'):
+            return True
+        if t == ('cmp', 'is not', ('var', 'public_key'), None) or t == ('cmp', 'is not', ('var', 'txid'), None):
+            return True
+        if t == ('cmp', 'is', ('var', 'public_key'), None) or t == ('cmp', 'is', ('var', 'txid'), None):
+            return False
+        # to_hexstring() returns a string for every input it accepts (it raises otherwise), never None
+        if isinstance(t, tuple) and t[0] == 'cmp' and t[1] in ('is not', 'is') and t[3] is None and isinstance(t[2], tuple) and t[2][:2] == ('call', 'to_hexstring'):
+            return t[1] == 'is not'
+        return None
+    it = Interp(ctx.repo, 'keys', self_cls='keys:Signature', decide=decide)
+    it.inline_setters = True
+    calls = []
+    it.obs_call = lambda name, base, args, kw, st, node: calls.append(([term(a) for a in args], node)) if base == '_ecdsa' and name == 'verify' else None
+    it.run_function(fn, {'txid': S(('var', 'txid')), 'public_key': S(('var', 'public_key'))})
+    if not calls:
+        ctx.undecided('Signature.verify: _ecdsa.verify call not reached with both arguments given')
+    for args, node in calls:
+        if len(args) != 11:
+            continue
+        digest, qx, qy = args[2], args[3], args[4]
+        for role, t, param, stale in (('digest', digest, 'txid', ('txid', '_txid')), ('Qx', qx, 'public_key', ('x', '_public_key')), ('Qy', qy, 'public_key', ('y', '_public_key'))):
+            uses_arg = any(x == ('var', param) for x in subterms(('w', t)))
+            olds = [x for x in subterms(('w', t)) if isinstance(x, tuple) and x[0] == 'attr' and x[1] == SELF and x[2] in stale]
+            ctx.saw('verify(txid, public_key): %s operand derives from argument %s: %s; remembered attributes read: %s' % (role, param, uses_arg, [show(o) for o in olds]))
+            if olds or not uses_arg:
+                ctx.violate(q, 'with %s supplied, the %s operand of the verifier is %s: it can be the value remembered on the Signature object instead of the argument' % (param, role, show(t)[:120]), node,
+                            'verify(other_digest) / verify(key=listed key) returns the verdict for a different (message, key) pair')
